@@ -34,7 +34,7 @@ ID = "C12"
 LEVEL = "fault_enumeration"
 RULE = ("Configurations are Hypothesis-generated; within a configuration crash points are ENUMERATED over every user-callable "
         "invocation of the fault-free run (sub_evaluations.crash_points; exhaustive per configuration when E <= the tier's cap: "
-        "160 quick, unlimited thorough). Distinct = SHA-1 of the configuration JSON. Non-trivial = a configuration with >= 1 crash "
+        "160 quick, 1200 thorough). Distinct = SHA-1 of the configuration JSON. Non-trivial = a configuration with >= 1 crash "
         "point inside a step after at least one committed step (measured).")
 ASSUMPTIONS = ["the commit count seen inside each call of the reference run defines the expected prefix length",
                "resumed-run agreement: 1e-9 relative (explicit fixed step), 50 x (atol + rtol |y|) otherwise"]
@@ -80,7 +80,7 @@ def _config(draw, cap=160):
 
 def parts(tier):
     q = tier == "quick"
-    return [Part("faults", strategy=_config(cap=160 if q else 100000), examples=48 if q else 600, timeout=900)]
+    return [Part("faults", strategy=_config(cap=160 if q else 1200), examples=48 if q else 600, timeout=900 if q else 3600)]
 
 
 class Harness(object):
